@@ -226,6 +226,41 @@ theorem simE_step {fns P n} (hE : SimE fns P n) (hA : SimArgs fns P n) (hB : Sim
           have := ExecC.append hx1 (ExecC.append_ret (atvCode vr c2) this)
           simpa [List.append_assoc] using this
         · cases hb : binop op a b <;> simp [hb, R.stuck, pure_eq, R.ok] at h4
+  | eqH ne l r =>
+    -- `==` / `!=` on a host type: operands as for `bin`; the lazy value is the call of the type's equality
+    simp [lowerE, Option.bind_eq_some_iff] at hl
+    obtain ⟨cl, vl, c1, h1, cr, vr, c2, h2, rfl, rfl, rfl⟩ := hl
+    have ⟨m1, b1⟩ := lowerE_mono l c cl vl c1 h1
+    have ⟨a1, k1, hk1, hk1'⟩ := atv_spec vl c1 b1
+    constructor
+    · intro t env' w h
+      simp only [evalExpr, bind_eq, bind_ok_iff] at h
+      obtain ⟨t1, ⟨env1, a⟩, t2, hel, ⟨t3, ⟨env2, b⟩, t4, her, h4, rfl⟩, rfl⟩ := h
+      obtain ⟨σ1, hx1, hv1, ha1, hf1⟩ := hE.mat h1 ha hel
+      obtain ⟨σ2, hx2, hv2, ha2, hf2⟩ := hE.mat h2 ha1 her
+      cases hb : hostEq ne a b with
+      | none => simp [hb, R.stuck] at h4
+      | some p =>
+        obtain ⟨te, u⟩ := p
+        simp [hb, pure_eq, R.ok, bind_eq, R.bind, R.emits] at h4
+        obtain ⟨rfl, rfl, rfl⟩ := h4
+        refine ⟨σ2, t1 ++ t3, te, ?_, ?_, by simp, ha2, hf1.trans hf2 (by omega)⟩
+        · have := ExecC.append hx1 hx2
+          simpa [List.append_assoc] using this
+        · have hl' : σ2 (atvVar vl c1) = a := by
+            rw [hk1, hf2 k1 hk1', ← hk1, hv1]
+          exact .pure (by simp [evalValue, hl', hv2, hb])
+    · intro t w h
+      simp only [evalExpr, bind_eq, bind_ret_iff] at h
+      rcases h with h | ⟨t1, ⟨env1, a⟩, t2, hel, h2', rfl⟩
+      · have := hE.ret h1 ha h
+        simpa [List.append_assoc] using ExecC.append_ret _ this
+      · obtain ⟨σ1, hx1, hv1, ha1, hf1⟩ := hE.mat h1 ha hel
+        rcases h2' with h | ⟨t3, ⟨env2, b⟩, t4, her, h4, rfl⟩
+        · have := hE.ret h2 ha1 h
+          have := ExecC.append hx1 (ExecC.append_ret (atvCode vr c2) this)
+          simpa [List.append_assoc] using this
+        · cases hb : hostEq ne a b <;> simp [hb, R.stuck, pure_eq, R.ok, bind_eq, R.bind, R.emits] at h4
   | and l r =>
     simp [lowerE, Option.bind_eq_some_iff] at hl
     obtain ⟨cl, vl, c1, h1, cr, vr, c2, h2, rfl, rfl, rfl⟩ := hl
@@ -1649,16 +1684,19 @@ theorem simParts_step {fns P n} (hE : SimE fns P n) (hS : SimParts fns P n) : Si
     · intro t env' s h
       simp only [evalParts, bind_eq, bind_ok_iff] at h
       obtain ⟨t1, ⟨env1, v⟩, t2, hel, h2', rfl⟩ := h
-      cases hd : display v with
+      cases hd : render v with
       | none => simp [hd, R.stuck] at h2'
-      | some sv =>
+      | some p =>
+        obtain ⟨te, sv⟩ := p
         simp only [hd, bind_eq, bind_ok_iff] at h2'
-        obtain ⟨t3, ⟨env2, rest'⟩, t4, hr, h4, rfl⟩ := h2'
+        obtain ⟨t0, u0, t0', he0, ⟨t3, ⟨env2, rest'⟩, t4, hr, h4, rfl⟩, rfl⟩ := h2'
+        simp [R.emits] at he0
+        obtain ⟨rfl⟩ := he0
         simp [pure_eq, R.ok] at h4
         obtain ⟨rfl, rfl, rfl⟩ := h4
         obtain ⟨σ1, hx1, ha1, hf1⟩ := hE.store h1 ha hel (.t c1)
         have hk1 : σ1 (.t k) = .str acc := by rw [hf1 k hk, hσ]
-        have s2 : ExecS P (σ1.set (.t c1) v) (.assign (.t (c1 + 1)) (.toStr (.t c1))) []
+        have s2 : ExecS P (σ1.set (.t c1) v) (.assign (.t (c1 + 1)) (.toStr (.t c1))) te
             (.normal ((σ1.set (.t c1) v).set (.t (c1 + 1)) (.str sv))) :=
           .assign (.pure (by simp [evalValue, hd]))
         have s3 : ExecS P ((σ1.set (.t c1) v).set (.t (c1 + 1)) (.str sv)) (.assign (.t k) (.append (.t k) (.t (c1 + 1)))) []
@@ -1677,14 +1715,19 @@ theorem simParts_step {fns P n} (hE : SimE fns P n) (hS : SimParts fns P n) : Si
       rcases h with h | ⟨t1, ⟨env1, v⟩, t2, hel, h2', rfl⟩
       · have := hE.ret h1 ha h
         simpa [List.append_assoc] using ExecC.append_ret _ this
-      · cases hd : display v with
+      · cases hd : render v with
         | none => simp [hd, R.stuck] at h2'
-        | some sv =>
+        | some p =>
+          obtain ⟨te, sv⟩ := p
           simp only [hd, bind_eq, bind_ret_iff] at h2'
+          rcases h2' with h | ⟨t0, u0, t0', he0, h2', rfl⟩
+          · simp [R.emits] at h
+          simp [R.emits] at he0
+          obtain ⟨rfl⟩ := he0
           rcases h2' with h | ⟨t3, ⟨env2, rest'⟩, t4, hr, h4, rfl⟩
           · obtain ⟨σ1, hx1, ha1, hf1⟩ := hE.store h1 ha hel (.t c1)
             have hk1 : σ1 (.t k) = .str acc := by rw [hf1 k hk, hσ]
-            have s2 : ExecS P (σ1.set (.t c1) v) (.assign (.t (c1 + 1)) (.toStr (.t c1))) []
+            have s2 : ExecS P (σ1.set (.t c1) v) (.assign (.t (c1 + 1)) (.toStr (.t c1))) te
                 (.normal ((σ1.set (.t c1) v).set (.t (c1 + 1)) (.str sv))) :=
               .assign (.pure (by simp [evalValue, hd]))
             have s3 : ExecS P ((σ1.set (.t c1) v).set (.t (c1 + 1)) (.str sv)) (.assign (.t k) (.append (.t k) (.t (c1 + 1)))) []
@@ -1692,7 +1735,7 @@ theorem simParts_step {fns P n} (hE : SimE fns P n) (hS : SimParts fns P n) : Si
               .assign (.pure (by simp [evalValue, set_other _ _ hne1, set_other _ _ hne2, hk1]))
             have hr' := (hS rest env1 k (c1 + 2) cr c'
               (((σ1.set (.t c1) v).set (.t (c1 + 1)) (.str sv)).set (.t k) (.str (acc ++ sv))) (acc ++ sv) h2
-              (((ha1.set_tmp _ _).set_tmp _ _).set_tmp _ _) (by omega) (by simp)).2 t2 w h
+              (((ha1.set_tmp _ _).set_tmp _ _).set_tmp _ _) (by omega) (by simp)).2 _ w h
             have := ExecC.append hx1 (ExecC.cons s2 (ExecC.cons s3 hr'))
             simpa [List.append_assoc] using this
           · simp [pure_eq, R.ok] at h4
